@@ -1,4 +1,6 @@
 """C19: swarm actions run once per Crazyflie with the right arguments and error report."""
+import threading
+
 from hypothesis import strategies as st
 
 from vlib.dsched import Deadlock, Horizon, Session
@@ -19,6 +21,14 @@ RULE = ('The real Swarm runs under the deterministic scheduler with fake members
         'one) or loses the link before completion, reported synchronously or from another thread; a failing member makes open_links raise '
         'with every link closed again, otherwise every member is open and close_links closes all.')
 ASSUMPTIONS = ['sub "scripts": members are fakes, only Swarm itself is exercised; sub "sync-members": Swarm and SyncCrazyflie are real, the Crazyflie below is scripted', 'interleavings at thread start/join and the yield points inside action bodies']
+
+
+class _Token:
+    def __init__(self, name):
+        self.name = name
+
+    def __repr__(self):
+        return '<token %s>' % self.name
 
 
 class _Boom(Exception):
@@ -157,6 +167,13 @@ def run_swarm(case):
                     shared = None
                     for k, u in enumerate(uris):
                         vals = ['a%d-%d-%d' % (ci, k, j) for j in range(call['nargs'])]
+                        # arguments are handed over as they are: objects whose identity matters (a sentinel, an out-parameter list the
+                        # caller reads afterwards, a lock or event shared with the caller) - they compare equal to themselves only
+                        for j in range(call['nargs']):
+                            if (ci + k + j) % 3 == 1:
+                                vals[j] = _Token('t%d-%d-%d' % (ci, k, j))
+                            elif (ci + k + j) % 5 == 2:
+                                vals[j] = threading.Lock()
                         if call['args'] == 'shared' and k < 2:
                             if shared is None:
                                 shared = ['s%d-%d' % (ci, j) for j in range(call['nargs'])]
